@@ -40,11 +40,24 @@ example : lit '\'' (quoted '\'' enumTable ['\'', '\\', '\n', 'a'] ++ ['\n']) =
 
 /-! ### TypedDict keys: template `'{{ field.key }}'` with translate(typedDictKeyTable) -/
 
-theorem typedDictKeyTable_ok : tableOK '\'' typedDictKeyTable = true := by decide
+/-- The TypedDict key table exists and escapes every character that is special inside `'…'`; each
+escape decodes to its key. (A module without an `escape_characters` table is translated to the empty
+table, on which this fails.) -/
+theorem typedDictKeyTable_ok : tableOK '\'' typedDictKeyTable = true ∧ typedDictKeyTablePresent = true := by decide
+
+/-- **The key written between the template's quotes IS the table translation of the wire name.**
+`model/typed_dict.py DataModelField.key` returns `<name>.translate(escape_characters)` — one return,
+the module's own table, the translated value taken from `original_name` / `name` only (extracted from
+the source's AST on every run). This is what connects `typedDict_key_exact` (a statement about the
+table) to the generator: any other escaping function (`json.dumps`, `repr`, `unicode_escape`, …) is a
+different mechanism about which the table theorems say nothing, and breaks this obligation; the
+behaviour of the real property is compared with `Model.Escape.translate typedDictKeyTable` by the
+campaign `esc.quoted … vs the real DataModelField.key`. -/
+theorem typedDict_key_uses_table : typedDictKeyUsesTable = true := by decide
 
 theorem typedDict_key_exact (s rest : List Char) (h : rest.head? ≠ some '\'') :
     lit '\'' (quoted '\'' typedDictKeyTable s ++ rest) = some (s, rest) :=
-  lit_quoted typedDictKeyTable_ok s rest h
+  lit_quoted typedDictKeyTable_ok.1 s rest h
 
 /-! ### Regex patterns: `pattern_literal` = `r'` + pattern + `'` when raw-safe, else `repr(pattern)` -/
 
